@@ -447,8 +447,13 @@ pub fn gen_faults(rng: &mut Rng, stream: &Stream, n: usize, enabled: u32) -> Vec
             12 => Fault::Flip(rng.usize_below((nwords * 32).max(1))),
             13 => {
                 let n = rng.range(1, 3) as usize;
-                let pos = if rng.chance(1, 2) && !starts.is_empty() { *rng.pick(&starts) } else { rng.usize_below(nwords + 1) };
-                Fault::Garbage(pos, (0..n).map(|_| if rng.chance(1, 6) { MAGIC } else { rng.word() }).collect())
+                if rng.chance(1, 4) {
+                    // zero padding behind the module (alignment / block-size padding of a container format)
+                    Fault::Garbage(nwords, vec![0; n])
+                } else {
+                    let pos = if rng.chance(1, 2) && !starts.is_empty() { *rng.pick(&starts) } else { rng.usize_below(nwords + 1) };
+                    Fault::Garbage(pos, (0..n).map(|_| match rng.below(6) { 0 => MAGIC, 1 => 0, _ => rng.word() }).collect())
+                }
             }
             14 => {
                 if !rng.chance(1, 6) {
